@@ -44,7 +44,7 @@ Proof.
   assert (Hl1 : ts_last st1 <> None).
   { assert (st1 = fst (write_element beh st e)) by (rewrite E1; reflexivity).
     subst st1. unfold write_element. cbn [fst].
-    destruct (advance_other (set_last st (Some e))) as (_ & Ala & _). rewrite Ala. cbn. discriminate. }
+    destruct (advance_other (set_last st (Some e)) (eg e)) as (_ & Ala & _). rewrite Ala. cbn. discriminate. }
   specialize (IH st1 (vt_execs cfg v c1) S1 Hl1 Hes).
   destruct (write_elements beh st1 es) as [st2 c2] eqn:E2. cbn [fst snd] in *.
   rewrite render_all_app, vt_bytes_app, vt_execs_app, Hb. exact IH.
